@@ -22,7 +22,7 @@ FAMILIES_OF = {
     "C10": ["async", "asynchard"],
     "C13": ["reuse"],
     "C14": ["soft", "softx", "softloop"],
-    "C15": ["wide", "full", "deep", "lazycon", "softloop", "dense"],
+    "C15": ["wide", "wider", "full", "deep", "lazycon", "softloop", "dense"],
     "C16": ["snapshot"],
     "C20": ["cache"],
 }
